@@ -148,6 +148,8 @@ struct NewObj {
     bool had_fail = false, ok_after_fail = false, failed_solve = false, retried = false;
     bool noncover = false;           // an ACCEPTED standard uses a vector parameter whose grid misses the scenario's band
     int adds_attempted = 0;
+    std::vector<double> cur_freq;    // the vector last ACCEPTED by vnacal_new_set_frequency_vector (empty: none yet)
+    std::vector<double> solved_freq; // cur_freq at the time of the last successful vnacal_new_solve (what its calibration carries)
     std::set<int> registered;        // parameters (pool index) used by accepted standards
     std::vector<HistOp> hist; std::vector<std::string> hist_desc;
     int refused = 0;
@@ -276,10 +278,11 @@ struct Exec {
     // vnacal_new_t (apiexec_cal.hpp)
     void op_new();
     int need_new(int ki);
-    void new_alloc(int ki, bool force_valid = false, bool small = false, const AllocSpec *spec = nullptr); void new_free(int ki, int ni); void new_setfreq(int ki, int ni, bool force_valid = false); void new_knobs(int ki, int ni);
+    void new_alloc(int ki, bool force_valid = false, bool small = false, const AllocSpec *spec = nullptr); void new_free(int ki, int ni); void new_setfreq(int ki, int ni, bool force_valid = false, int replace_mode = -1); void new_knobs(int ki, int ni);
     void new_merror(int ki, int ni); void new_add(int ki, int ni, bool allow_bad, int force_twist = -1); void new_add_unknown(int ki, int ni, int reuse = -1); bool new_solve(int ki, int ni);
     void mark_solved(CalObj &K, NewObj &N);
-    void shared_unknown_scenario(int ki); void late_setfreq_scenario(int ki);
+    void shared_unknown_scenario(int ki); void late_setfreq_scenario(int ki); void replace_freq_scenario(int ki);
+    const cs::Standard *forced_std = nullptr;     // new_add takes this standard instead of generating one (scenario operations)
     void new_retry_scenario(int ki);
     void quick_calibration(int ki);
     int cell_param(int ki, NewObj &N, cs::SCell &cell);
